@@ -60,6 +60,11 @@ def family(seed, tier):
             orig = "orig-ed" if key == "ed" else "orig-rcde"
             muts += [("copy", key, orig, m) for m in (flips(rnd, key, n=4) if tier == "quick" else flips(rnd, key, n=40))]
         muts.append(("copy", "rcde", "orig-rcde", "recbyte"))
+        # third-party copies whose content is the same JSON value written with other bytes (insignificant whitespace): new entry hash,
+        # old signature -- "a valid signature over exactly that content"
+        for orig in ("orig-ed", "orig-rcde", "orig-conv"):
+            for v in (("lead", "trail", "colon", "comma", "inner", "tab") if (tier != "quick" or orig == "orig-ed") else ("colon", "trail")):
+                muts.append(("copy", "ed" if orig != "orig-rcde" else "rcde", orig, "ws:" + v))
         muts += [("copy", "ed", "orig-conv", m) for m in flips(rnd, "ed", n=3)]
         rnd.shuffle(muts)
         per_block = 60 if tier == "quick" else 400
@@ -89,7 +94,7 @@ def main():
         rule="for ed25519 and RCD-e signers: every mutation class (bad/missing/extra/swapped signature, wrong key, wrong chain, salt just outside "
              "+-12h and exactly on the edge, content changed after signing, RCD-e before its activation height) as freshly built entries, single-bit "
              "flips of content and of each external id (quick: seeded sample; thorough: EVERY bit of two sample entries), and third-party copies of "
-             "executed entries with altered bytes (incl. the RCD-e recovery byte); transfers and conversions; all placed on a real chain; TLC requires "
+             "executed entries with altered bytes (incl. the RCD-e recovery byte, and the same JSON rewritten with insignificant whitespace); transfers and conversions; all placed on a real chain; TLC requires "
              "every entry that is not Authorized(e,h) to leave no trace in balances, history, holding or relations; non-trivial = every mutated entry",
         corrupt=lcheck.corrupt_balance,
         post=lambda results: {"mutated_entries": sum(1 for r in results for b in r.doc["blocks"] for e in b.get("entries", []) if e.get("mut"))})
